@@ -354,6 +354,19 @@ def run(plan):
                                 d = {"field": "r5s_solutions", "class": "R5S"}
                         except Exception:
                             pass
+                    if d is None and len(t1.levels) == 2 and t1.leaves and plan["seed"] % 6 in (2, 4) \
+                            and all(type(x).__name__ == "CMADeme" for x in t1.leaves):
+                        # the hill-valley based redundancy analysis of the two (identical) runs must agree as well
+                        try:
+                            w.in_monitor = w2.in_monitor = True
+                            rf1, rf2 = t1.get_redundancy_factor(), t2.get_redundancy_factor()
+                            w.probe("c13-twin-redundancy-factor-compared")
+                            if rf1 != rf2:
+                                d = {"field": "redundancy_factor", "class": "HillValley", "values": [rf1, rf2]}
+                        except Exception:
+                            w.probe("c13-twin-redundancy-factor-raised")
+                        finally:
+                            w.in_monitor = w2.in_monitor = False
                     if d is not None:
                         w.violate(PROP, "twin-differs/" + str(d.get("class", d.get("field", "run"))), d)
                     elif plan["seed"] % 3 == 0:
